@@ -4,6 +4,7 @@ from .fam_be import Be
 from .fam_seg import Seg
 from .fam_iovs import Iovs
 from .fam_fe import Fe
+from .fam_sess import Sess
 
 PROPS = {}
 
@@ -36,6 +37,11 @@ FE_RULE = ("family fe: sequences of real Frontend operations (all 32 public oper
            "version, size, body bytes, 0..3 descriptors, truncation, split, garbage, no answer); the interposed recvmsg ends the stream after "
            "the script so that no call can block; observation = result and the exact bytes/descriptors written; judged per step by Spec/FeSpec.v "
            "(C01 wire bytes, C02 silent local rejection, C03 result fidelity, C06 reply acceptance, C07 gating); non-trivial = something was written")
+SESS_RULE = ("family sess: the real Frontend against the real BackendReqHandler (served until the first error and then closed, as the daemon does) "
+             "over a socketpair with a recording handler behind the Mutex adapter: a negotiation through the real endpoints followed by 1..7 operations "
+             "with lattice/random arguments and scripted handler outcomes (ok / error / unusable result); a watchdog turns a call that does not return "
+             "within 0.7 s into the observation 'blocked'; judged by Spec/SessSpec.v: exactly one handler invocation with equal arguments and the same "
+             "files (by device+inode), results equal to what the handler produced, failures never reported as success, no call left waiting")
 BE_TB = ["hand model Model/BeServer.v + Model/Transport.v of handle_request and the receive paths (tied to the code by the correspondence family be on every run)",
          "Spec/BeSpec.v: my transcription of the request table (reply kinds, gates, validity of handler invocations)"]
 BE_ASSUME = ["Linux stream-socket/SCM_RIGHTS delivery as modelled in Model/Transport.v (a recvmsg never crosses a segment boundary; descriptors ride on the first byte of a segment)",
@@ -67,10 +73,10 @@ reg(id="C08", props="Props/C08.v", proof_files=["Proofs/TransportProofs.v", "Pro
                                                    "SCM_RIGHTS of a partially accepted sendmsg travel with its first byte"])
 reg(id="C01", props="Props/C01.v", proof_files=["Proofs/WireProofs.v"], families=[Fe(), Be()],
     rule=FE_RULE + " || " + BE_RULE, trusted_base=FE_TB + BE_TB, assumptions=BE_ASSUME)
-reg(id="C02", props="Props/C02.v", proof_files=["Proofs/FeProofs.v", "Proofs/BeProofs.v", "Proofs/TableProofs.v"], families=[Fe(), Be()],
-    rule=FE_RULE + " || " + BE_RULE, trusted_base=FE_TB + BE_TB, assumptions=BE_ASSUME)
-reg(id="C03", props="Props/C03.v", proof_files=["Proofs/FeProofs.v", "Proofs/BeProofs.v"], families=[Fe(), Be()],
-    rule=FE_RULE + " || " + BE_RULE, trusted_base=FE_TB + BE_TB, assumptions=BE_ASSUME)
+reg(id="C02", props="Props/C02.v", proof_files=["Proofs/FeProofs.v", "Proofs/BeProofs.v", "Proofs/TableProofs.v"], families=[Sess(), Fe(), Be()],
+    rule=SESS_RULE + " || " + FE_RULE + " || " + BE_RULE, trusted_base=FE_TB + BE_TB, assumptions=BE_ASSUME)
+reg(id="C03", props="Props/C03.v", proof_files=["Proofs/FeProofs.v", "Proofs/BeProofs.v"], families=[Sess(), Fe(), Be()],
+    rule=SESS_RULE + " || " + FE_RULE + " || " + BE_RULE, trusted_base=FE_TB + BE_TB, assumptions=BE_ASSUME)
 reg(id="C06", props="Props/C06.v", proof_files=["Proofs/FeProofs.v"], families=[Fe()],
     rule=FE_RULE, trusted_base=FE_TB, assumptions=BE_ASSUME)
 reg(id="BE-DEV",
@@ -83,3 +89,7 @@ reg(id="SEG-DEV", props="Props/C20.v", families=[Seg()], rule="dev")
 class FeNoSpec(Fe):
     spec = False
 reg(id="FE-DEV", props="Props/C20.v", families=[Fe()], rule="dev")
+
+class SessNoSpec(Sess):
+    spec = False
+reg(id="SESS-DEV", props="Props/C20.v", families=[Sess()], rule="dev")
